@@ -395,6 +395,16 @@ class World(object):
         self.trace.append(label)
         kind = label[0]
         running = None
+        self.cur_kind = kind
+        if kind == "deliver":
+            q = label[1]
+            self.cur_kind = "deliver:" + ("reply" if q.startswith("asl_workflow_reply_to") else "instance" if q.startswith("asl_workflow_events-") else "shared" if q.startswith("asl_workflow_events") else q)
+        elif kind == "timer":
+            for c in b.connections:
+                if c.name == label[1]:
+                    for t in c.timers:
+                        if t.seq == label[2]:
+                            self.cur_kind = "timer:" + simcore.timer_kind(t.callback).split(".<locals>.")[-1]
         try:
             if kind == "deliver":
                 conn = self._conn(label[2])
@@ -460,10 +470,31 @@ class World(object):
         except Exception as e:
             self.escaped.append((self.step_no, label, "%s: %s" % (type(e).__name__, e)))
             b.log("escaped_exception", error="%s: %s" % (type(e).__name__, e), site=None)
+        self._fold_due_heartbeats()
         for m in self.monitors:
             m.after_step(self, label)
 
     enabled_cache = None
+    cur_kind = None
+
+    def _fold_due_heartbeats(self):
+        """No-op heart-beats (count not a multiple of 60) that are already due fire silently: they are deterministic,
+        touch nothing but their own counter, and leaving them as explicit events would only add stuttering steps."""
+        b = self.broker
+        for inst in self.live_instances():
+            while True:
+                hb = [t for t in self.timers(inst.conn) if self.is_heartbeat(t) and t.deadline <= self.clock.now]
+                if not hb:
+                    break
+                t = min(hb, key=lambda t: (t.deadline, t.seq))
+                ed = t.callback.__self__
+                if (ed.heartbeat_count + 1) % 60 == 0:
+                    break
+                t.fired = True
+                t.connection.timers.remove(t)
+                n = len(b.oplog)
+                t.callback()
+                del b.oplog[n:]
 
     def _conn(self, name):
         for c in self.broker.connections:
